@@ -38,6 +38,9 @@ type OrderResult struct {
 	Class   string
 	Reason  string
 	Assumes []string
+	// Excepted: for a loop with an order_except clause, what the rule could not establish about the listed
+	// calls (assumed, reported as unchecked)
+	Excepted map[string]any
 }
 
 const (
@@ -52,6 +55,7 @@ type ordEvent struct {
 	kind  string // "idx" (index read/write of container), "whole" (container used whole), "alias"
 	s     string
 	roots []string // for "alias": the shared expressions the aliased value derives from
+	site  string   // the call of the loop body's own code under which the event arose
 	keyed bool
 	pos   token.Pos
 }
@@ -59,7 +63,7 @@ type ordEvent struct {
 type ordFrame struct {
 	info  *types.Info
 	env   map[*types.Var]int
-	names map[*types.Var]string // callee parameter -> actual argument, in the naming of the loop's function
+	names map[*types.Var]string   // callee parameter -> actual argument, in the naming of the loop's function
 	roots map[*types.Var][]string // local holding a reference to shared state -> the shared expressions it derives from
 	local func(v *types.Var) bool
 	depth int
@@ -82,6 +86,9 @@ type ordAn struct {
 	frames   []*ordFrame
 	hasSortK bool
 	// of the loop under analysis
+	site       string          // the call statement of the loop body (depth 0) being analysed
+	except     map[string]bool // callees whose unestablished effects are assumed (order_except)
+	excused    map[string][]string
 	loopSig    *types.Signature
 	loopBreaks map[*ast.BranchStmt]bool
 	lateReads  []*ast.Ident
@@ -90,8 +97,46 @@ type ordAn struct {
 func (a *ordAn) fr() *ordFrame { return a.frames[len(a.frames)-1] }
 
 func (a *ordAn) fail(pos token.Pos, format string, args ...any) {
+	a.failAt(a.site, pos, format, args...)
+}
+
+func (a *ordAn) failAt(site string, pos token.Pos, format string, args ...any) {
 	p := a.fset.Position(pos)
-	a.fails = append(a.fails, fmt.Sprintf("%s (%s:%d)", fmt.Sprintf(format, args...), baseFile(p.Filename), p.Line))
+	msg := fmt.Sprintf("%s (%s:%d)", fmt.Sprintf(format, args...), baseFile(p.Filename), p.Line)
+	if site != "" && a.except[site] {
+		if a.excused == nil {
+			a.excused = map[string][]string{}
+		}
+		a.excused[site] = append(a.excused[site], msg)
+		return
+	}
+	a.fails = append(a.fails, msg)
+}
+
+// siteOf: the callee of the call that a simple statement of the loop body consists of.
+func siteOf(s ast.Stmt) string {
+	var e ast.Expr
+	switch s := s.(type) {
+	case *ast.ExprStmt:
+		e = s.X
+	case *ast.AssignStmt:
+		if len(s.Rhs) == 1 {
+			e = s.Rhs[0]
+		}
+	case *ast.DeferStmt:
+		e = s.Call
+	}
+	call, ok := e.(*ast.CallExpr)
+	if !ok {
+		return ""
+	}
+	switch f := ast.Unparen(call.Fun).(type) {
+	case *ast.Ident:
+		return f.Name
+	case *ast.SelectorExpr:
+		return f.Sel.Name
+	}
+	return ""
 }
 
 func baseFile(f string) string {
@@ -476,6 +521,12 @@ func (a *ordAn) stmts(list []ast.Stmt) {
 }
 
 func (a *ordAn) stmt(s ast.Stmt) {
+	if a.fr().depth == 0 && a.site == "" {
+		if n := siteOf(s); n != "" {
+			a.site = n
+			defer func() { a.site = "" }()
+		}
+	}
 	switch s := s.(type) {
 	case nil:
 	case *ast.BlockStmt:
@@ -672,7 +723,7 @@ func (a *ordAn) write(lhs ast.Expr, rhs ast.Expr, st ast.Stmt, tok token.Token) 
 						fr.roots = map[*types.Var][]string{}
 					}
 					fr.roots[v] = rs
-					a.events = append(a.events, ordEvent{kind: "alias", s: types.ExprString(rhs), roots: rs, pos: st.Pos()})
+					a.events = append(a.events, ordEvent{kind: "alias", s: types.ExprString(rhs), roots: rs, pos: st.Pos(), site: a.site})
 				}
 			}
 			return
@@ -852,7 +903,7 @@ func (a *ordAn) expr(e ast.Expr) {
 				return
 			}
 		}
-		a.events = append(a.events, ordEvent{kind: "idx", s: a.nameOf(x.X), keyed: a.isKeyExpr(x.Index), pos: x.Pos()})
+		a.events = append(a.events, ordEvent{kind: "idx", s: a.nameOf(x.X), keyed: a.isKeyExpr(x.Index), pos: x.Pos(), site: a.site})
 		a.exprNoWhole(x.X)
 		a.expr(x.Index)
 	case *ast.StarExpr:
@@ -904,7 +955,7 @@ func (a *ordAn) whole(e ast.Expr) {
 		return
 	}
 	for _, r := range a.rootsOf(e) {
-		a.events = append(a.events, ordEvent{kind: "whole", s: r, pos: e.Pos()})
+		a.events = append(a.events, ordEvent{kind: "whole", s: r, pos: e.Pos(), site: a.site})
 	}
 }
 
@@ -1256,7 +1307,7 @@ func (w *World) OrderCheck(inScope func(fi *FuncInfo) bool) []*OrderResult {
 }
 
 var nondetCallees = []string{"time.Now", "time.Since", "time.Until", "time.Tick", "time.After", "time.NewTimer", "time.NewTicker", "math/rand.", "math/rand/v2.", "crypto/rand.", "os.Getpid", "os.Getppid", "os.Hostname", "os.MkdirTemp", "os.CreateTemp", "io/ioutil.TempFile", "io/ioutil.TempDir",
-	"reflect.Value.MapKeys", "reflect.Value.MapRange", "reflect.Value.Pointer", "reflect.Value.UnsafePointer", "reflect.Value.UnsafeAddr", "maps.Keys", "maps.Values", "maps.All", "golang.org/x/exp/maps.Keys", "golang.org/x/exp/maps.Values", "sync.Map.Range", "runtime.NumGoroutine", "runtime.Stack", "runtime.Callers", "github.com/google/uuid.", "os.Getuid", "os.Getgid", "os.Geteuid"}
+	"reflect.Value.MapKeys", "reflect.Value.MapRange", "reflect.Value.Pointer", "reflect.Value.UnsafePointer", "reflect.Value.UnsafeAddr", "maps.Keys", "maps.Values", "maps.All", "golang.org/x/exp/maps.Keys", "golang.org/x/exp/maps.Values", "sync.Map.Range", "runtime.NumGoroutine", "runtime.Stack", "runtime.Callers", "github.com/google/uuid.", "golang.org/x/sync/errgroup.Group.Go", "golang.org/x/sync/errgroup.Group.TryGo", "sync.WaitGroup.Go", "os.Getuid", "os.Getgid", "os.Geteuid"}
 
 // sourcesOf: the function contains no source of run-to-run variation other than map iteration.
 func (w *World) sourcesOf(fi *FuncInfo) *OrderResult {
@@ -1267,7 +1318,66 @@ func (w *World) sourcesOf(fi *FuncInfo) *OrderResult {
 		p := w.Fset.Position(pos)
 		why = append(why, fmt.Sprintf("%s (%s:%d)", s, baseFile(p.Filename), p.Line))
 	}
+	// a clock value that only ever reaches log statements is not a source of variation in the output
+	isLogCall := func(c *ast.CallExpr) bool {
+		if se, ok := ast.Unparen(c.Fun).(*ast.SelectorExpr); ok {
+			if sel, ok := info.Selections[se]; ok && isLogType(sel.Recv()) {
+				return true
+			}
+			if fn, ok := info.Uses[se.Sel].(*types.Func); ok && (strings.HasPrefix(pkgPathOf(fn), "github.com/rs/zerolog") || pkgPathOf(fn) == "github.com/vektra/mockery/v3/internal/logging") {
+				return true
+			}
+		}
+		return false
+	}
+	var stack []ast.Node
+	underLog := func() bool {
+		for _, a := range stack {
+			if c, ok := a.(*ast.CallExpr); ok && isLogCall(c) {
+				return true
+			}
+		}
+		return false
+	}
+	// uses of each local, with whether the use sits inside a log statement
+	usesOutsideLog := map[*types.Var]bool{}
 	ast.Inspect(fi.Decl.Body, func(n ast.Node) bool {
+		if n == nil {
+			stack = stack[:len(stack)-1]
+			return true
+		}
+		if id, ok := n.(*ast.Ident); ok {
+			if v, ok := info.Uses[id].(*types.Var); ok && !underLog() {
+				// time.Since(v) / v.Sub(..) whose own value reaches only a log statement is judged at that call
+				usesOutsideLog[v] = true
+			}
+		}
+		stack = append(stack, n)
+		return true
+	})
+	stack = nil
+	clockOnlyLogged := func(n *ast.CallExpr) bool {
+		if underLog() {
+			return true
+		}
+		// v := time.Now() with every use of v inside a log statement
+		if len(stack) > 0 {
+			if as, ok := stack[len(stack)-1].(*ast.AssignStmt); ok && as.Tok == token.DEFINE && len(as.Lhs) == 1 && len(as.Rhs) == 1 && as.Rhs[0] == n {
+				if id, ok := as.Lhs[0].(*ast.Ident); ok {
+					if v, ok := info.Defs[id].(*types.Var); ok && !usesOutsideLog[v] {
+						return true
+					}
+				}
+			}
+		}
+		return false
+	}
+	ast.Inspect(fi.Decl.Body, func(n ast.Node) bool {
+		if n == nil {
+			stack = stack[:len(stack)-1]
+			return true
+		}
+		defer func() { stack = append(stack, n) }()
 		switch n := n.(type) {
 		case *ast.GoStmt:
 			bad(n.Pos(), "go statement")
@@ -1293,6 +1403,9 @@ func (w *World) sourcesOf(fi *FuncInfo) *OrderResult {
 				name := fullName(fn)
 				for _, p := range nondetCallees {
 					if name == p || strings.HasSuffix(p, ".") && strings.HasPrefix(name, p) {
+						if strings.HasPrefix(name, "time.") && clockOnlyLogged(n) {
+							continue
+						}
 						bad(n.Pos(), "call of "+name)
 					}
 				}
@@ -1378,6 +1491,11 @@ func (w *World) mapRangesOf(fi *FuncInfo) []*OrderResult {
 				w.Errors = append(w.Errors, fmt.Sprintf("%s: 'maprange %s: order_assumed' matches no range over a map in the function", fi.Name, e))
 			}
 		}
+		for e := range contract.OrderExceptExpr {
+			if !usedAssumed[e] {
+				w.Errors = append(w.Errors, fmt.Sprintf("%s: 'maprange %s: order_except' matches no range over a map in the function", fi.Name, e))
+			}
+		}
 	}()
 	var visit func(n ast.Node) bool
 	visit = func(n ast.Node) bool {
@@ -1417,17 +1535,26 @@ func (w *World) mapRangesOf(fi *FuncInfo) []*OrderResult {
 				return true
 			}
 		}
-		w.analyseMapRange(fi, rs, parents, contract, res)
+		var ex *OrderExcept
+		if contract != nil {
+			if ex = contract.OrderExceptExpr[types.ExprString(rs.X)]; ex != nil {
+				usedAssumed[types.ExprString(rs.X)] = true
+			}
+		}
+		w.analyseMapRange(fi, rs, parents, contract, res, ex)
 		return true
 	}
 	ast.Inspect(fi.Decl.Body, visit)
 	return out
 }
 
-func (w *World) analyseMapRange(fi *FuncInfo, rs *ast.RangeStmt, parents map[ast.Node]ast.Node, contract *Contract, res *OrderResult) {
+func (w *World) analyseMapRange(fi *FuncInfo, rs *ast.RangeStmt, parents map[ast.Node]ast.Node, contract *Contract, res *OrderResult, ex *OrderExcept) {
 	info := fi.Pkg.TypesInfo
 	a := &ordAn{w: w, fset: w.Fset, keyed: map[string]bool{}, assumes: map[string]bool{}, accs: map[*types.Var]string{}, accLit: map[*types.Var]string{}, accStmts: map[ast.Node]bool{}}
 	a.loopSig = fi.Sig
+	if ex != nil {
+		a.except = ex.Callees
+	}
 	a.loopBreaks = map[*ast.BranchStmt]bool{}
 	a.hasSortK = contract != nil && len(contract.SortKeys) > 0
 	// which break statements leave this loop
@@ -1517,18 +1644,18 @@ func (w *World) analyseMapRange(fi *FuncInfo, rs *ast.RangeStmt, parents map[ast
 		switch ev.kind {
 		case "idx":
 			if targets[ev.s] && !ev.keyed {
-				a.fail(ev.pos, "%s is indexed by something other than the loop key while iterations write its cells", ev.s)
+				a.failAt(ev.site, ev.pos, "%s is indexed by something other than the loop key while iterations write its cells", ev.s)
 			}
 		case "whole":
 			if strings.HasPrefix(ev.s, "?") && len(targets) > 0 {
-				a.fail(ev.pos, "%s, which may reach state that iterations write, is handed to a callee", ev.s)
+				a.failAt(ev.site, ev.pos, "%s, which may reach state that iterations write, is handed to a callee", ev.s)
 			} else if t := related(ev.s); t != "" {
-				a.fail(ev.pos, "%s is used as a whole (or handed to a callee) while iterations write cells of %s", ev.s, t)
+				a.failAt(ev.site, ev.pos, "%s is used as a whole (or handed to a callee) while iterations write cells of %s", ev.s, t)
 			}
 		case "alias":
 			for _, r := range ev.roots {
 				if len(targets) > 0 && (strings.HasPrefix(r, "?") || related(r) != "") {
-					a.fail(ev.pos, "a local holds a reference into %s (%s) while iterations write cells of it", r, ev.s)
+					a.failAt(ev.site, ev.pos, "a local holds a reference into %s (%s) while iterations write cells of it", r, ev.s)
 				}
 			}
 		}
@@ -1537,6 +1664,14 @@ func (w *World) analyseMapRange(fi *FuncInfo, rs *ast.RangeStmt, parents map[ast
 		a.assumes["values stored under distinct keys of "+a.M+" do not share mutable state with each other or with the other state the iteration reads (tree-shaped configuration / data model)"] = true
 	}
 	res.OK = len(a.fails) == 0
+	if ex != nil {
+		var names []string
+		for n := range a.excused {
+			names = append(names, n)
+		}
+		sort.Strings(names)
+		res.Excepted = map[string]any{"reason": ex.Reason, "not_established_about": a.excused, "calls": names}
+	}
 	res.Reason = strings.Join(dedupe(a.fails), "; ")
 	for s := range a.assumes {
 		res.Assumes = append(res.Assumes, s)
@@ -1630,6 +1765,9 @@ func (a *ordAn) sortedAfter(fi *FuncInfo, rs *ast.RangeStmt, v *types.Var, paren
 			return ""
 		}
 		if keySorts[name] {
+			if len(call.Args) == 2 && comparesElements(info, call.Args[1], v) {
+				return "" // ordered by the elements themselves: a total order
+			}
 			if a.hasSortK {
 				a.assumes["the sort keys of distinct elements of "+v.Name()+" are distinct (the key is the map key of the element)"] = true
 				return ""
@@ -1639,4 +1777,38 @@ func (a *ordAn) sortedAfter(fi *FuncInfo, rs *ast.RangeStmt, v *types.Var, paren
 		return "is used before being sorted"
 	}
 	return "is not sorted before the enclosing block ends"
+}
+
+// comparesElements: less is `func(i, j int) bool { return s[i] < s[j] }` (or >) over the slice itself.
+func comparesElements(info *types.Info, less ast.Expr, v *types.Var) bool {
+	lit, ok := ast.Unparen(less).(*ast.FuncLit)
+	if !ok || len(lit.Body.List) != 1 || lit.Type.Params == nil {
+		return false
+	}
+	var params []*types.Var
+	for _, f := range lit.Type.Params.List {
+		for _, n := range f.Names {
+			if pv, ok := info.Defs[n].(*types.Var); ok {
+				params = append(params, pv)
+			}
+		}
+	}
+	ret, ok := lit.Body.List[0].(*ast.ReturnStmt)
+	if !ok || len(ret.Results) != 1 || len(params) != 2 {
+		return false
+	}
+	be, ok := ast.Unparen(ret.Results[0]).(*ast.BinaryExpr)
+	if !ok || (be.Op != token.LSS && be.Op != token.GTR) {
+		return false
+	}
+	elem := func(e ast.Expr, p *types.Var) bool {
+		ix, ok := ast.Unparen(e).(*ast.IndexExpr)
+		if !ok {
+			return false
+		}
+		s, ok1 := ast.Unparen(ix.X).(*ast.Ident)
+		i, ok2 := ast.Unparen(ix.Index).(*ast.Ident)
+		return ok1 && ok2 && info.Uses[s] == v && info.Uses[i] == p
+	}
+	return elem(be.X, params[0]) && elem(be.Y, params[1]) || elem(be.X, params[1]) && elem(be.Y, params[0])
 }
